@@ -59,14 +59,17 @@ def _typed_job(job):
     warnings.simplefilter("ignore")
     import sharepoint2text
     kinds, fmt, dup = job
+    datemode = 0
+    if fmt == "xls1904":        # legacy workbook in the 1904 date system
+        fmt, datemode = "xls", 1
     row = [TYPED_CELL[k] for k in kinds]
     if fmt == "ods":
         row = [None if (c and c[0] in ("e", "f")) else c for c in row]
-    if fmt == "xls":      # the BIFF writer has no date formats / formulas
-        row = [None if (c and c[0] in ("d", "date", "t", "f")) else c for c in row]
+    if fmt == "xls":      # the BIFF writer has no formulas
+        row = [None if (c and c[0] == "f") else c for c in row]
     # header row: two different token strings, or (dup) the same literal text twice ("Amount" | "Amount")
     header = [["str", "Amount"], ["str", "Amount"]] if dup else [["s", 1], ["s", 2]]
-    book = {"kind": "book", "sheets": [{"name": "T", "rows": [header, row]}]}
+    book = {"kind": "book", "datemode": datemode, "sheets": [{"name": "T", "rows": [header, row]}]}
     try:
         r = next(getattr(sharepoint2text, EXTRACTOR[fmt])(io.BytesIO(render(book, fmt)), "t." + fmt))
         tables = [t.get_table() for t in r.iterate_tables()]
@@ -118,13 +121,15 @@ def typed_values(ctx):
     jobs = []
     for u in rows:
         kinds = [str(k) for k in u[0]]
-        for fmt in ("xlsx", "ods", "xls"):
-            eff = ["empty" if ((fmt == "ods" and k in ("e", "f")) or (fmt == "xls" and k in ("d", "date", "t", "f"))) else k
+        for fmt in ("xlsx", "ods", "xls", "xls1904"):
+            if fmt == "xls1904" and not any(k in ("d", "date", "t") for k in kinds):
+                continue        # the date system only matters for date cells
+            eff = ["empty" if ((fmt == "ods" and k in ("e", "f")) or (fmt.startswith("xls") and fmt != "xlsx" and k == "f")) else k
                    for k in kinds]
             if all(k == "empty" for k in eff):
                 continue        # nothing but the header row would be written
             jobs.append((kinds, fmt, eff, False))
-            if fmt != "xls":        # equal header texts (xls: rows are dicts keyed by header text, KF-C13-07)
+            if fmt in ("xlsx", "ods"):        # equal header texts (xls: rows are dicts keyed by header text, KF-C13-07)
                 jobs.append((kinds, fmt, eff, True))
     with ProcessPoolExecutor(16) as ex:
         obs = list(ex.map(_typed_job, [(k, f, d) for k, f, _, d in jobs]))
@@ -133,7 +138,7 @@ def typed_values(ctx):
         if "exc" in o:
             ctx.v.violation(what=f"{fmt}: typed row {kinds} could not be read back: {o['exc']}", case={"kinds": kinds, "fmt": fmt})
             continue
-        traces.append({"id": f"typed{'-duphdr' if dup else ''}:{fmt}:{'/'.join(kinds)}", "hdr": {"fmt": fmt, "doc": {"units": [], "header": [], "footer": []}},
+        traces.append({"id": f"typed{'-duphdr' if dup else ''}:{fmt}:{'/'.join(kinds)}", "hdr": {"fmt": "xls" if fmt == "xls1904" else fmt, "doc": {"units": [], "header": [], "footer": []}},
                        "raw": o["raw"], "ev": [{"a": "Typed", "kinds": eff, "row": o["row"]}]})
     # header-less grids whose last column may hold only falsy values (ODS keeps every row as data)
     grids = gen_units(ctx, "typedgrid", 1)
@@ -284,20 +289,16 @@ def sheet_walk_model(ctx):
             got = {(i, j): c for i, row in enumerate(sh["src"]) for j, c in enumerate(row) if c[0] not in ("none", "ws")}
             if want != got:
                 raise MachineryError(f"writer / openpyxl disagree on a generated grid: wrote {g}, reader saw {sh['src']}")
-            traces.append({"id": f"sheet:{len(traces)}", "hdr": {"fmt": "xlsx"}, "raw": json.dumps(sh["data"])[:300],
+            traces.append({"id": f"sheet:{len(traces)}", "hdr": {"fmt": "xlsx", "doc": {"grid": g}}, "raw": json.dumps(sh["data"])[:300],
                            "ev": [dict(sh, a="Sheet")]})
-    dev = {d for fid, d in SHEET_DEV.items() if ctx.v.open_finding(fid)}
-    tcfg = f"SPECIFICATION TraceSpec\nCONSTANTS WalkDev = {to_tla(dev)}\nCONSTRAINT TraceAccept\n"
-    br = validate("SheetWalkTrace", tcfg, traces, scratch=ctx.scratch, parallel=14, min_chunk=300)
-    ctx.ev.tlc_counts(f"SheetWalkTrace: real sheet reader = machine result (WalkDev = {sorted(dev)})", br.distinct, br.states, br.wall_s)
-    for t, tv in zip(traces, br.verdicts):
-        if tv.accepted:
-            ctx.v.ok()
-        else:
-            e = t["ev"][0]
-            ctx.v.violation(what="read_xlsx: the sheet table differs from the algorithm model SheetWalk.tla: rows seen "
-                                 f"{json.dumps(e['src'])[:300]} -> rows returned {json.dumps(e['all'])[:300]}, table {json.dumps(e['data'])[:300]}",
-                            case={"fmt": "xlsx", "event": e}, where="xlsx_extractor.py:_read_sheet_data / _read_content_from_workbook")
+    def cfgfn(dev):
+        return f"SPECIFICATION TraceSpec\nCONSTANTS WalkDev = {to_tla(set(dev))}\nCONSTRAINT TraceAccept\n"
+    # strict first (a reader that no longer takes the as-built steps is right, not a violation); what the strict machine
+    # rejects must be exactly what the machine with the open findings' steps produces
+    validate_with_findings(ctx, "SheetWalkTrace", traces, SHEET_DEV,
+                           lambda t, e: "read_xlsx: the sheet table differs from the algorithm model SheetWalk.tla: rows seen "
+                                        f"{json.dumps(e['src'])[:300]} -> rows returned {json.dumps(e['all'])[:300]}, table {json.dumps(e['data'])[:300]}",
+                           lambda t: "xlsx_extractor.py:_read_sheet_data / _read_content_from_workbook", cfg=cfgfn)
     ctx.ev.replayed(len(traces))
     for t in traces[:: max(1, len(traces) // 500)]:
         ctx.ev.nontrivial(("sheetwalk", t["raw"]))
